@@ -126,20 +126,35 @@ def _distribute_try(computation_graph: ComputationGraph,
                 == 'VariableComputation':
 
             dependent_var = [v.name for v in n.factor.dimensions]
-            candidates = [a for a in agents_capa
-                          if len(set(mapping[a]).intersection(
-                                 dependent_var)) > 0]
-
-            candidates.sort(key=lambda x: len(mapping[a]))
-            if candidates:
-                selected = candidates[0]
+            footprint = computation_memory(n)
+            if hostwith[0] in var_hosted:
+                # The variable is already hosted: the factor can only join it
+                candidates = [var_hosted[hostwith[0]]]
             else:
-                selected = choice(list(agents_capa.keys()))
+                footprint += computation_memory(
+                    computation_graph.computation(hostwith[0]))
+                candidates = [a for a in agents_capa
+                              if len(set(mapping[a]).intersection(
+                                     dependent_var)) > 0]
+
+                candidates.sort(key=lambda x: len(mapping[a]))
+                if not candidates:
+                    candidates = [choice(list(agents_capa.keys()))]
+
+            # Only keep agents with enough capacity for the footprint of
+            # what we place on it
+            candidates = [a for a in candidates
+                          if agents_capa[a] > footprint]
+            if not candidates:
+                # Cannot host them together, they will be placed
+                # separately, like any other computation
+                continue
+            selected = candidates[0]
 
             mapping[selected].update({n.name, hostwith[0]})
             var_hosted[n.name] = selected
             var_hosted[hostwith[0]] = selected
-            agents_capa[selected] -= computation_memory(n)
+            agents_capa[selected] -= footprint
 
     for n in nodes:
         if n.name in var_hosted:
